@@ -3,7 +3,7 @@ NOT_APPLICABLE = {}
 TB = ('trusted base: hollow construction of facades (constructor fields copied), in-memory transport with '
       'msgpack copies, get_version shim; see evidence.assumptions')
 CHECKS['C13'] = (
-    'property-based testing (Hypothesis, seeded) of pilot-end histories against a per-task frame oracle',
+    'property-based testing (Hypothesis, seeded) of pilot-end histories against a per-task frame oracle; the real PilotManager.close() on a virtual clock',
     'random search over task-to-pilot bindings x task states x pilot end orders through the real '
     'TaskManager/Task/Pilot code; no counterexample in the explored domain, coverage measured; not a proof',
     TB, 'DESIGN.md 4/C13')
@@ -13,7 +13,7 @@ SCHED_TB = ('trusted base: the scheduler pair engine (mp.Queue/Event/Process, ti
             'in-memory transport, get_version shim')
 CHECKS['C01'] = (
     'property-based testing (Hypothesis, seeded): model-based histories through the real scheduler loop under a '
-    'deterministic cooperative scheduler, holder-set disjointness oracle at every grant; NodeList API vs occupancy model',
+    'deterministic cooperative scheduler, holder-set disjointness oracle at every grant; NodeList API vs occupancy model (also obtained through a real Pilot, with index gaps, NUMA domains, and from 2-3 concurrent application threads under the deterministic scheduler)',
     'random search over node layouts x task streams x interleavings of arrivals/completions/cancels with the real '
     'Continuous/ContinuousJsrun code; no counterexample in the explored domain, coverage measured; not a proof',
     SCHED_TB, 'DESIGN.md 4/C01')
@@ -55,7 +55,7 @@ CHECKS['C06'] = (
     TB + '; not reached: Task._update(reconnect=True), bulk callbacks, interleavings of _pilot_state_cb with _update_tasks',
     'DESIGN.md 4/C06, A.1')
 CHECKS['C15'] = (
-    'property-based testing (Hypothesis, seeded) of the four wait calls under a virtual clock against a deadline oracle',
+    'property-based testing (Hypothesis, seeded) of the four wait calls under a virtual clock against a deadline oracle; wait vs blocking user callback and submit_pilots vs first notifications under the deterministic scheduler',
     'random search over requested state sets (none/[]/one/several) x scripted entity trajectories (incl. other final '
     'state, never ending, already final) x awaited sets x timeouts through the real Task.wait, Pilot.wait, '
     'TaskManager.wait_tasks, PilotManager.wait_pilots; return time bounded below by "every awaited entity reached a '
@@ -70,7 +70,7 @@ EXEC_TB = ('trusted base: executor assembly (mt.Thread recorded and run under th
            'thread switches only at yield points; in-memory transport; get_version shim')
 CHECKS['C07'] = (
     'property-based testing (Hypothesis, seeded) of executor schedules under a deterministic cooperative scheduler + '
-    'systematic enumeration (one-task interleavings, preemption sweep of every activity pair) against an exactly-once '
+    'systematic enumeration (one-task interleavings, preemption sweep of every activity pair, two-task sweeps, start-up reports, launch bursts) against an exactly-once '
     'oracle over the transport event log',
     'random and systematic search over interleavings of intake, the real watcher loop, the real timeout watcher and '
     'cancel handlers x launch fault points x exit codes x timeouts through the real Popen (and NOOP) executor; per '
@@ -101,7 +101,7 @@ CHECKS['C12'] = (
     'scheduler-private _wait_pool/_early/info',
     'DESIGN.md 4/C12')
 CHECKS['C14'] = (
-    'property-based testing (Hypothesis, seeded) of pilot notification histories and of agent termination-cause orders against reference models, plus exhaustive enumeration of _pilot_state_progress (9x9), of all orderings of <=3 termination events (792 runs) and of the killme.signal shell mapping',
+    'property-based testing (Hypothesis, seeded) of pilot notification histories and of agent termination-cause orders against reference models, plus exhaustive enumeration of _pilot_state_progress (9x9), of all orderings of <=3 termination events (792 runs) and of the killme.signal shell mapping; the real end of bootstrap_0.sh executed with a stand-in agent; kill requests through the real launching component',
     'random search over batches of pilot state notifications (gaps, duplicates, reordering, late non-finals, contradictory finals, unknown uids, 1-3 pilots) through the real pubsub -> PilotManager._state_sub_cb/_update_pilot -> Pilot._update -> pilot-/manager-level callbacks, with the tmgr scheduler as second consumer; and over orders of runtime reached / cancel naming this or another pilot / terminate / stop / loop end through the real Agent_0._check_lifetime (virtual clock), control path, stop and finalize, judged on killme.signal = published state = state of an occurred cause (single cause strict); no counterexample in the explored domain, coverage measured; not a proof',
     TB + '; not reached: bootstrap_0.sh as a whole (only its killme.signal -> final_state lines are executed with bash), agent death without finalize, Agent_0.initialize; a lone terminate/stop accepts CANCELED or FAILED; loss of the rest of a batch after an exception is not demanded',
     'DESIGN.md 4/C14, A.1')
